@@ -197,6 +197,7 @@ var hostileTokens = []string{
 	"-9223372036854775809", "99999999999999999999999999", "1e999", "-1e999", "1e-999", "1e39", "3.5e38",
 	"1.5e300", "00", "-0", "0.0", "1.", ".5", "1e", "1:e5", "1:5", "1:", "-", "--1", "1e+5", "1E5", "1e5", "0.3",
 	"1e308", "1.7976931348623159e308", "4.9e-324", "1_000", "0x10", "1e0000000000000000001",
+	`"\0"`, `"\11"`, `"a\1"`, `"\7x"`, `"\777"`, `"\400"`, `"\08"`, `"\x4"`, `"\u123"`,
 	`""`, `"\""`, `"\\"`, `"\u0000"`, `"\uD800"`, `"\q"`, `"\x41"`, `"abc`, "\"a\nb\"", `"\u12"`, `"\`, `"\u"`,
 	`" "`, `"  x  "`, `"a b c"`, `"\t"`, `"é"`, "\"\xff\"", `"` + strings.Repeat("A", 300) + `"`,
 	"as", "in", "out", "src", "map", "self", "call", "return", "stage", "pipeline", "struct", "filetype",
@@ -206,6 +207,11 @@ var hostileTokens = []string{
 	"(", ")", "[", "]", "{", "}", "[]", "{}", "()", "\x00", "\xff\xfe", " ", " ", "\v", "\r", "\r\n",
 	"_", "__x", "x.y.z", "x..y", "X", "9x", "x-y",
 }
+
+// stringEscapes: every escape form of the string grammar, complete, cut short and out of range.
+var stringEscapes = []string{`\0`, `\1`, `\7`, `\00`, `\11`, `\77`, `\000`, `\101`, `\377`, `\400`, `\777`, `\08`, `\8`, `\9`,
+	`\x`, `\x4`, `\x41`, `\xzz`, `\u`, `\u1`, `\u12`, `\u123`, `\u0041`, `\uD800`, `\uDFFF`, `\U`, `\U0001F600`, `\U00110000`,
+	`\a`, `\b`, `\f`, `\n`, `\r`, `\t`, `\v`, `\\`, `\"`, `\'`, `\/`, `\q`, `\ `, `\`}
 
 var tokRe = regexp.MustCompile(`"(?:[^"\\\n]|\\.)*"|[A-Za-z_][A-Za-z0-9_]*|-?[0-9][0-9a-zA-Z.+-]*|\s+|#[^\n]*|.`)
 
@@ -230,6 +236,17 @@ func mutateSource(r *rand.Rand, base string) string {
 			t := toks[i]
 			switch {
 			case strings.HasPrefix(t, `"`):
+				if len(t) >= 2 && strings.HasSuffix(t, `"`) && r.Intn(2) == 0 {
+					// an escape sequence (complete, truncated or illegal) spliced
+					// into the existing string, often right before the closing quote
+					esc := stringEscapes[r.Intn(len(stringEscapes))]
+					at := len(t) - 1
+					if r.Intn(3) == 0 {
+						at = 1 + r.Intn(len(t)-1)
+					}
+					toks[i] = t[:at] + esc + t[at:]
+					break
+				}
 				strs := []string{`""`, `" "`, `"\""`, `"\\"`, `"a b"`, `"\u0000"`, "\"\xff\"", `"\q"`, `"abc`, `"é\n"`}
 				toks[i] = strs[r.Intn(len(strs))]
 			case len(t) > 0 && (t[0] >= '0' && t[0] <= '9' || t[0] == '-'):
